@@ -3,7 +3,7 @@ From Coq Require Import List Arith Lia Bool Permutation.
 From Kiki Require Import Base.Ord Base.Chars Data Oset.Model Lex.Model LR.Driver LR.Grammar LR.Inv LR.Complete LR.Sound LR.ErrPos LR.Viable LR.Least LR.CanonLR1 LR.CanonAgree LR.FirstExact
   LR.Validate LR.ValidateProofs Front.Parse Front.FrontProofs Ast.Validate Ast.WF Ast.ValidateProofs Ast.VWF Ast.Truthful
   Build.Machine Build.DetProofs Build.Table Build.TableProofs Build.FillProofs Build.TableSpec Build.GenCorrect Np Build.NoPanic
-  Emit.Emit Emit.Hash Emit.HashProofs Emit.Parser Emit.NoPanic Pipeline.
+  Emit.Emit Emit.EmitProofs Emit.Hash Emit.HashProofs Emit.Parser Emit.NoPanic Ast.TypeText Front.TypeTokens Front.TypeSource Pipeline.
 From Kiki Require Gen.Template.
 Import ListNotations.
 
@@ -188,6 +188,34 @@ Proof.
   - intros s it. apply merged_lookaheads; assumption.
   - intros g s Hp it Hin. apply (same_core pt ann (fseq ft) A E B (fseq_any_ft ft) g s Hp it Hin).
   - apply first_table_exact; assumption.
+Qed.
+
+(* ---------- C13 from the source text to the emitted type text ---------- *)
+(* every payload type text the validated file stores (and every use site prints, Emit/EmitProofs.v)
+   reads back, with a maximal-munch lexer, as a contiguous segment of the token sequence of the
+   source: the identifiers, `::`, `<`, `,`, `>`, `()` the user wrote for that terminal, in order *)
+Theorem generate_payload_types_read_back_as_the_source_tokens ho digest src out text :
+  generate_full ho digest src = Ok (out, text) ->
+  exists toks, tokenize src = Ok toks /\
+    forall ty, In ty (map tvr_type (vt_variants (vf_tenum (go_file out)))) ->
+      exists pre seg post, toks = pre ++ seg ++ post /\ lex_ty ty = Some (map tytok_of seg).
+Proof.
+  intros H. unfold generate_full in H. apply bind_ok in H as (v & Hv & H).
+  assert (Hout : go_file out = v).
+  { apply bind_ok in H as ([m rt] & _ & H). apply bind_ok in H as (t & _ & H). apply bind_ok in H as (tx & _ & H).
+    injection H as <- _. reflexivity. }
+  rewrite Hout. clear H Hout. unfold front_end in Hv.
+  apply bind_ok in Hv as (toks & Htok & Hv). apply bind_ok in Hv as (ast & Hast & Hv). exists toks. split; [exact Htok|].
+  unfold validate_ast in Hv. apply bind_ok in Hv as (te & Hte & Hv). apply bind_ok in Hv as (nts & _ & Hv).
+  apply bind_ok in Hv as (st & _ & Hv). apply bind_ok in Hv as ([] & _ & Hv). injection Hv as <-. cbn [vf_tenum].
+  unfold get_terminal_enum in Hte. apply bind_ok in Hte as (d & Hd & Hte).
+  apply get_unvalidated_terminal_enum_ok in Hd.
+  assert (Hin : In (ITerminal d) ast).
+  { assert (In d (terminal_decls ast)) by (rewrite Hd; left; reflexivity).
+    unfold terminal_decls in H. apply in_flat_map in H as (it & Hit & Hd'). destruct it as [i0|s0|e0|t0]; try (destruct Hd'; fail). destruct Hd' as [<-|[]]. exact Hit. }
+  rewrite (terminal_types_are_type_to_string d te Hte). intros ty Hty. apply in_map_iff in Hty as (tv & <- & Htv).
+  destruct (front_end_types_are_the_source_tokens src toks _ ast Htok Hast d tv Hin Htv) as ((pre & seg & post & E & Hm) & Hl).
+  exists pre, seg, post. split; [exact E|]. rewrite Hl, Hm. reflexivity.
 Qed.
 
 (* ---------- C07: after the front end, nothing can panic ---------- *)
